@@ -10,7 +10,7 @@ from safeds_stubgen.api_analyzer._ast_visitor import MyPyAstVisitor
 from safeds_stubgen.docstring_parsing import ClassDocstring, FunctionDocstring
 from vlib.ek.bstr import BStr, I, show
 from vlib.ek.evalr import Ev, SymObj
-from vlib.ek.job import THOROUGH, KJob, concrete
+from vlib.ek.job import THOROUGH, KJob, concrete, selftest
 
 
 def internal_predicate():
@@ -117,6 +117,13 @@ def publicity_decision():
               replay=lambda i: _replay_member(i, mod),
               bound="as class_member, declaration stack = [module, class, __init__]", regions=regions)
 
+    def build(node):
+        e = Ev(node=node, globs=fn.__globals__)
+        o = e.call(_visitor([mod], "pkg.mod"), name, qname)
+        reg = z3.Not(regions["single_underscore_trailing_dunder"][0])
+        return [*wf, reg], z3.And(o == z3.And(z3.Not(_private_name(name)), z3.Not(seg_private)), z3.Not(e.raise_guard()))
+
+    selftest(job, "module_level", fn, build)
     rng = job.rng
     samples = []
     for _ in range(60):
